@@ -322,10 +322,15 @@ func c07r3(w *World, rr *RuleRun) {
 		st := w.LK.StatesAt(mu, lc.Inner)
 		rr.At(w, lc.Inner, "registration runs under Server.mu (write)", allHeld(st, true), "lock states "+statesString(st))
 		key := w.argAtRoot(lc, 1)
-		// deregistration post-dominates
+		// deregistration post-dominates (directly, or inside a folded helper called on the way out)
+		dels := w.callsLifted(q, delT)
 		ok, wit := MustPass(a, func(i ssa.Instruction) bool {
-			c := callInstrCommon(i)
-			return c != nil && callMatches(c, delT) && termEq(w.TS.Of(c.Args[1]), key)
+			for _, d := range dels {
+				if d.Root == i && termEq(w.argAtRoot(d, 1), key) {
+					return true
+				}
+			}
+			return false
 		})
 		det := ""
 		if wit != nil {
@@ -353,7 +358,8 @@ func c07r3(w *World, rr *RuleRun) {
 			}
 		}
 	}
-	for _, d := range w.CallsIn(q, delT, false) {
+	for _, lc := range w.callsLifted(q, delT) {
+		d := lc.Inner
 		st := w.LK.StatesAt(mu, d)
 		rr.At(w, d, "deregistration runs under Server.mu (write)", allHeld(st, true), "lock states "+statesString(st))
 	}
